@@ -58,7 +58,13 @@ ASSUME = ['datetime model (symx/symdt.py): instants as integer '
           'timedelta.total_seconds() = RNE(us / 10**6) (CPython int/int true '
           'division is correctly rounded); int() of it and comparisons with '
           'integers are encoded exactly in linear integer arithmetic '
-          '(symdt.SecFloat), other float operations on it use the FP term']
+          '(symdt.SecFloat), other float operations on it use the FP term',
+          'datetime.timestamp() of an aware datetime = the same quotient; '
+          'datetime.fromtimestamp(x, tz) rounds x to microseconds as the C '
+          'code does (modf, * 1e6, round half even): exact LIA encoding from '
+          '2**33 s up, and the identity below 2**33 s (argued: the float is '
+          'within 2**-21 s < 0.5 us of the exact quotient); validated on '
+          'samples by tests/validate_secfloat.py and by witness replay']
 
 if __name__ == '__main__':
     sys.exit(common.main('C12', build_jobs, H, ASSUME, describe))
